@@ -99,6 +99,9 @@ def spaces(tier, seed):
                 for c in dims:
                     for iv in intervals:
                         lvl0.append(dict(DEFAULT, rows=r, cols=c, S=S, f=f, interval=list(iv), seed=seed))
+    # landscape / portrait strips whose coarse level is wider (taller) than two 100-pixel processing blocks
+    lvl0.append(dict(DEFAULT, rows=20, cols=520, S=2, f=2, interval=[0, 4], seed=seed))
+    lvl0.append(dict(DEFAULT, rows=430, cols=24, S=2, f=2, interval=[-3, 1], seed=seed))
     lvl1 = []
     for (S, f) in [(2, 2), (3, 2), (2, 3)]:
         dims, intervals = geometry(S, f)
